@@ -264,6 +264,67 @@ class AddLayer(Command):
         self.viewer.remove_layer(self.layer)
 
 
+def _save_subsets(cmd, session):
+    """
+    Record what is needed to undo a command that edits subsets: the state of
+    every subset and of every subset group, which subset groups exist, and
+    which of them are being edited.
+    """
+    dc = cmd.data_collection
+
+    cmd.old_states = {}
+    for data in dc:
+        for subset in data.subsets:
+            cmd.old_states[subset] = subset.subset_state
+
+    # The state of a subset group is recorded on the group itself: its subsets
+    # are replaced by new objects when a dataset is removed and added back,
+    # and a group has no subsets at all while the collection is empty.
+    cmd.old_groups = [(grp, grp.subset_state) for grp in dc.subset_groups]
+    cmd.old_sg_count = dc._sg_count
+
+    mode = getattr(session, 'edit_subset_mode', None)
+    if mode is None:
+        cmd.old_edit_subset = None
+    else:
+        edit = mode.edit_subset
+        cmd.old_edit_subset = list(edit) if isinstance(edit, (list, tuple)) else edit
+
+
+def _restore_subsets(cmd, session):
+    """
+    Undo a command that edits subsets, using the record made by
+    :func:`_save_subsets`.
+    """
+    dc = cmd.data_collection
+    old_groups = [grp for grp, _ in cmd.old_groups]
+
+    # Remove the subset groups that the command created (this also deletes
+    # their subsets), and let the next group - in particular the one created
+    # when the command is redone - have the same default label and color.
+    created = [grp for grp in dc.subset_groups if grp not in old_groups]
+    for grp in created:
+        dc.remove_subset_group(grp)
+    if created:
+        dc._sg_count = cmd.old_sg_count
+
+    # Delete any other subset that the command created
+    for data in dc:
+        for subset in data.subsets:
+            if (subset not in cmd.old_states and
+                    getattr(subset, 'group', None) not in old_groups):
+                subset.delete()
+
+    for k, v in cmd.old_states.items():
+        k.subset_state = v
+    for grp, state in cmd.old_groups:
+        grp.subset_state = state
+
+    mode = getattr(session, 'edit_subset_mode', None)
+    if mode is not None:
+        mode.edit_subset = cmd.old_edit_subset
+
+
 class ApplyROI(Command):
     """
     Apply an ROI to a data collection, updating subset states
@@ -281,21 +342,11 @@ class ApplyROI(Command):
     label = 'apply ROI'
 
     def do(self, session):
-        self.old_states = {}
-        for data in self.data_collection:
-            for subset in data.subsets:
-                self.old_states[subset] = subset.subset_state
-
+        _save_subsets(self, session)
         self.apply_func(self.roi)
 
     def undo(self, session):
-        for data in self.data_collection:
-            for subset in data.subsets:
-                if subset not in self.old_states:
-                    subset.delete()
-
-        for k, v in self.old_states.items():
-            k.subset_state = v
+        _restore_subsets(self, session)
 
 
 class ApplySubsetState(Command):
@@ -316,10 +367,7 @@ class ApplySubsetState(Command):
 
     def do(self, session):
 
-        self.old_states = {}
-        for data in self.data_collection:
-            for subset in data.subsets:
-                self.old_states[subset] = subset.subset_state
+        _save_subsets(self, session)
 
         mode = session.edit_subset_mode
         override_mode = self.extra.get('override_mode')
@@ -332,13 +380,7 @@ class ApplySubsetState(Command):
         mode.update(self.data_collection, self.subset_state, override_mode=override_mode)
 
     def undo(self, session):
-        for data in self.data_collection:
-            for subset in data.subsets:
-                if subset not in self.old_states:
-                    subset.delete()
-
-        for k, v in self.old_states.items():
-            k.subset_state = v
+        _restore_subsets(self, session)
 
 
 class LinkData(Command):
